@@ -607,6 +607,20 @@ pub fn run(ctx: &mut Ctx) {
         },
         check_sink_fmt,
     );
+    // the BackgroundQueue half of the sink clause: the C01 driver (real writer thread, per-entry
+    // stream results, fuel gate) with its exactly-once oracle, reported under this property
+    ctx.explore(
+        SubCfg::new(
+            "c16-background-queue",
+            "BackgroundQueue over a scripted stream with per-entry results Ok / Validation / Io (the driver and oracle of C01: 1-3 producer threads x 0-12 ops, fuel-gated writer, shutdown with or without a backlog). Oracle: every appended entry is handed to the stream exactly once whatever the results of the others (no retry after an Io error, nothing skipped), the stream is flushed after the last entry and dropped, append never panics. Non-trivial as in c01-delivery",
+            if q { 600 } else { 15_000 },
+        )
+        .threads(ctx.tier.pick(4, 8))
+        .shrink_iters(100)
+        .mandatory(&["non-ok-result"]),
+        || super::c01::arb_case(3, 12),
+        super::c01::check,
+    );
     ctx.explore(
         SubCfg::new(
             "c16-tee",
